@@ -829,7 +829,7 @@ def plan_binding(ctx, prop, plan, parallel_plan, only_fits=False, builder_runs=0
             for i, c in enumerate(fits_data[: builder_runs * (2 if depth == 2 else 1)]):
                 c["run"] = "builder-par2" if (c["run"] == "par2" or (i % 7 == 3 and depth == 2 and not quick)) else "builder"
         # quick tier: every children-first order for the first chunk, a window of 2 ready positions for the others
-        tasks.append({"name": "MC%sd%d" % (prop, depth), "T": T, "depth": depth, "cases": cases, "chunk": 45 if depth >= 2 else 120,
+        tasks.append({"name": "MC%sd%d" % (prop, depth), "T": T, "depth": depth, "cases": cases, "chunk": 50 if depth >= 2 else 120,
                       "first_chunk": (30 if quick else 45) if depth >= 2 else 120,
                       "later_window": 2 if (quick and depth >= 2) else None})
     if not quick:
@@ -847,13 +847,213 @@ def plan_binding(ctx, prop, plan, parallel_plan, only_fits=False, builder_runs=0
     return tasks
 
 
+# ------------------------------------------------------------------------------------------------
+# lossy tile formats (jpg with noisy content), code -> spec: the property speaks about the tiles AS STORED
+# ------------------------------------------------------------------------------------------------
+
+LOSSY_POPULATIONS = [
+    # depth, leaves: sparse, several parents with their bottom-right child present
+    (2, [(2, 0, 0), (2, 1, 1), (2, 3, 0), (2, 2, 2), (2, 3, 2), (2, 2, 3), (2, 3, 3), (2, 1, 3)]),
+    (2, [(2, 3, 3), (2, 0, 1), (2, 1, 0), (2, 2, 1), (2, 3, 1), (2, 0, 3)]),
+    (3, [(3, 7, 7), (3, 6, 6), (3, 1, 1), (3, 0, 1), (3, 5, 3), (3, 4, 2), (3, 5, 2), (3, 3, 7)]),
+    (2, [(2, x, y) for y in range(4) for x in range(4)]),
+]
+
+
+def lossy_real_run(args):
+    """Noisy RGB leaves written as jpg by the real PyramidIO, cascaded serially (and by a 2-process twin on a copy of
+    the very same leaf files).  Only runs the code; what was stored is looked at afterwards."""
+    scratch, idx, seed, depth, leaves, run, twin = args
+    repo.setup()
+    import numpy as np
+    import warnings
+    warnings.simplefilter("ignore")
+    from toasty.pyramid import PyramidIO, Pos
+    from toasty.image import Image
+    rng = np.random.default_rng(seed * 1000 + idx)
+    base = tempfile.mkdtemp(prefix="c02-lossy-", dir=scratch)
+    out = {"idx": idx, "depth": depth, "run": run, "base": base, "twin": None, "error": None, "twin_error": None}
+    pio = PyramidIO(base, default_format="jpg")
+    for l in leaves:
+        smooth = rng.integers(0, 256, size=(1, 1, 3))
+        noise = rng.integers(0, 256, size=(TILE, TILE, 3))
+        arr = noise if (l[1] + l[2]) % 3 else (noise // 2 + smooth // 2)
+        pio.write_image(Pos(*l), Image.from_array(arr.astype(np.uint8)))
+    if twin:
+        out["twin"] = base + "-par"
+        shutil.copytree(base, out["twin"])
+    meta = {"fmt": "jpg", "depth": depth}
+    try:
+        _run_cascade(pio, base, meta, {"live": []}, run)
+    except BaseException as e:  # noqa
+        out["error"] = repr(e)
+    if twin:
+        try:
+            _run_cascade(PyramidIO(out["twin"], default_format="jpg"), out["twin"], meta, {"live": []}, "par2")
+        except BaseException as e:  # noqa
+            out["twin_error"] = repr(e)
+    return out
+
+
+def _decode_jpg(path):
+    import numpy as np
+    from PIL import Image as PILImage
+    with PILImage.open(path) as im:
+        from PIL import JpegImagePlugin
+        info = (im.quantization, JpegImagePlugin.get_sampling(im))
+        return np.array(im.convert("RGB")), info
+
+
+def _reencode(arr, info):
+    """Encode with the stored file's own quantisation tables and chroma subsampling, decode again."""
+    import io
+    import numpy as np
+    from PIL import Image as PILImage
+    buf = io.BytesIO()
+    PILImage.fromarray(arr).save(buf, format="JPEG", qtables=info[0], subsampling=info[1])
+    buf.seek(0)
+    with PILImage.open(buf) as im:
+        return np.array(im.convert("RGB"))
+
+
+def lossy_observe(ctx, runs, full_all):
+    """Decode what the real runs stored; build MCLossy's input (the stored children of every parent)."""
+    import json
+    import numpy as np
+    parents, table = [], []
+    for obs in runs:
+        if obs["error"]:
+            continue
+        found, _other = scan_tiles(obs["base"], "jpg")
+        dec = dict((p, _decode_jpg(path)) for p, path in found.items())
+        obs["found"] = found
+        obs["decoded"] = dec
+        above = sorted((p for p in dec if p[0] < obs["depth"]), key=lambda p: (-p[0], p[2], p[1]))
+        for k, p in enumerate(above):
+            ks = [dec.get(q) for q in kids(p)]
+            # every output pixel through TLC for the tiles two or more levels above the leaves (all parents in the
+            # thorough tier); 1500 seeded sample pixels per tile otherwise
+            full = full_all or p[0] <= obs["depth"] - 2
+            want = [] if full else [[int(a), int(b)] for a, b in np.random.default_rng(k).integers(1, TILE + 1, size=(1500, 2))]
+            table.append({"n": TILE, "kids": [[] if kk is None else kk[0].tolist() for kk in ks], "want": want})
+            parents.append((obs, p, ks, want))
+    path = os.path.join(ctx.scratch, "lossy-in.json")
+    with open(path, "w") as f:
+        json.dump(table, f)
+    return parents, path
+
+
+def lossy_tlc(ctx, in_path):
+    import json
+    out_path = os.path.join(ctx.scratch, "lossy-out.json")
+    ctx.tlc("MCLossy", cfg_text="CONSTANTS\n T = 2\n", env={"IN": in_path, "OUT": out_path}, workers=1, timeout=3600, count=False)
+    with open(out_path) as f:
+        return json.load(f)
+
+
+def lossy_compare(ctx, runs, parents, expected):
+    """Every stored parent must be the re-encoding (with its own tables) of the 2x2 reduction of its STORED children.
+    The reduction comes from TLC as <<floor, ceiling>> of the exact mean; the statement fixes the data type, not the
+    rounding, so the candidates are the uniform roundings: down, up, to nearest (ties to even / ties up)."""
+    import numpy as np
+    if len(expected) != len(parents):
+        ctx.machinery("MCLossy returned %d tiles for %d parents" % (len(expected), len(parents)))
+        return
+    ntiles = 0
+    for (obs, p, ks, want), exp in zip(parents, expected):
+        ctx.count()
+        ctx.trace_ok()
+        ntiles += 1
+        what = "lossy case %d: jpg depth %d run %s" % (obs["idx"], obs["depth"], obs["run"])
+        # the stored children's block sums (harness arithmetic, used for the remainder that picks "nearest" and, for
+        # the sampled tiles, for the pixels TLC was not asked about - anchored to TLC's values at the sample)
+        mosaic = np.zeros((2 * TILE, 2 * TILE, 3), dtype=np.int64)
+        for slot, kk in enumerate(ks):
+            if kk is not None:
+                j, i = slot // 2, slot % 2
+                mosaic[TILE * j: TILE * (j + 1), TILE * i: TILE * (i + 1)] = kk[0]
+        s4 = mosaic.reshape(TILE, 2, TILE, 2, 3).sum(axis=(1, 3))
+        e = np.array(exp, dtype=np.int64)
+        if not want:
+            lo, hi = e[:, :, :3, 0], e[:, :, :3, 1]
+            if not (np.array_equal(lo, s4 // 4) and np.array_equal(hi, -((-s4) // 4))):
+                ctx.machinery("%s: the harness's mosaic of tile %s disagrees with TLC's display sentence" % (what, p))
+                continue
+        else:
+            lo, hi = s4 // 4, -((-s4) // 4)
+            rr = np.array([w[0] - 1 for w in want])
+            cc = np.array([w[1] - 1 for w in want])
+            if not (np.array_equal(lo[rr, cc], e[:, :3, 0]) and np.array_equal(hi[rr, cc], e[:, :3, 1])):
+                ctx.machinery("%s: the harness's reduction of tile %s disagrees with TLC at the sampled pixels" % (what, p))
+                continue
+        rem = s4 % 4
+        cands = {"down": lo, "up": hi,
+                 "nearest-even": np.where(rem < 2, lo, np.where(rem > 2, hi, np.where(lo % 2 == 0, lo, hi))),
+                 "nearest-up": np.where(rem < 2, lo, hi)}
+        stored, info = obs["decoded"][p]
+        best = None
+        for name, cand in cands.items():
+            diff = np.abs(_reencode(cand.astype(np.uint8), info).astype(np.int64) - stored.astype(np.int64))
+            if best is None or diff.sum() < best[1].sum():
+                best = (name, diff)
+            if not diff.any():
+                break
+        ctx.distinct(("lossy", obs["idx"], obs["run"], p))
+        if best[1].any():
+            h = TILE // 2
+            quads = dict(((j, i), int(best[1][h * j: h * (j + 1), h * i: h * (i + 1)].max())) for j in range(2) for i in range(2))
+            ctx.violation("C02:stored-children:serial:jpg",
+                          "tile %s is not the 2x2 reduction of its children as stored: against the re-encoded reduction (closest rounding: %s) "
+                          "%d of %d samples differ, by up to %d grey levels; largest difference per quadrant (row, col) %s [%s]"
+                          % (p, best[0], int((best[1] > 0).sum()), best[1].size, int(best[1].max()), quads, what),
+                          {"case": obs["idx"], "depth": obs["depth"], "run": obs["run"], "tile": p})
+    # serial = parallel on the same stored leaves
+    for obs in runs:
+        ctx.count()
+        if obs["error"]:
+            ctx.violation("C02:raised:serial:jpg", "the cascade raised %s [lossy case %d]" % (obs["error"], obs["idx"]), {"case": obs["idx"]})
+            continue
+        if not obs["twin"]:
+            continue
+        if obs["twin_error"]:
+            ctx.violation("C02:raised:parallel:jpg", "the 2-process cascade raised %s [lossy case %d]" % (obs["twin_error"], obs["idx"]), {"case": obs["idx"]})
+            continue
+        tfound, _o = scan_tiles(obs["twin"], "jpg")
+        if set(tfound) != set(obs["found"]):
+            ctx.violation("C02:serial-vs-parallel:jpg", "serial run stored tiles %s, the 2-process run %s [lossy case %d]"
+                          % (sorted(set(obs["found"]) - set(tfound)), sorted(set(tfound) - set(obs["found"])), obs["idx"]), {"case": obs["idx"]})
+            continue
+        for p in sorted(tfound):
+            a, _i = _decode_jpg(tfound[p])
+            if not np.array_equal(a, obs["decoded"][p][0]):
+                d = np.abs(a.astype(np.int64) - obs["decoded"][p][0].astype(np.int64))
+                ctx.violation("C02:serial-vs-parallel:jpg", "tile %s differs between the serial and the 2-process cascade of the same stored "
+                              "leaves (%d samples, up to %d grey levels) [lossy case %d]" % (p, int((d > 0).sum()), int(d.max()), obs["idx"]),
+                              {"case": obs["idx"], "tile": p})
+                break
+    ctx.note("lossy_jpg", {"cases": len(runs), "parents_compared": ntiles,
+                           "fully_through_tlc": len([1 for _o, _p, _k, w in parents if not w])})
+
+
+def lossy_prepare(ctx):
+    """Real runs (own short-lived pool, before any thread exists) + MCLossy input."""
+    import concurrent.futures as cf
+    import multiprocessing as mp
+    pops = LOSSY_POPULATIONS[:1] if ctx.quick else LOSSY_POPULATIONS
+    args = [(ctx.scratch, i, ctx.seed, d, ls, "serial" if i % 2 == 0 else "cli", i in (0, 2)) for i, (d, ls) in enumerate(pops)]
+    with cf.ProcessPoolExecutor(max_workers=4, mp_context=mp.get_context("fork"), initializer=_quiet_worker) as ex:
+        runs = list(ex.map(lossy_real_run, args))
+    parents, in_path = lossy_observe(ctx, runs, full_all=not ctx.quick)
+    return runs, parents, in_path
+
+
 def _warm():
     import time
     time.sleep(0.3)
     return os.getpid()
 
 
-def run_pipeline(ctx, tasks, enum_jobs, chunk=45, concurrent=6, workers=8):
+def run_pipeline(ctx, tasks, enum_jobs, chunk=45, concurrent=6, workers=8, extra=None):
     """Model-check the tasks with several TLC processes side by side (TLC generates initial states sequentially and
     one case = one initial state, so the families are cut into chunks) and push every chunk's emitted records through
     the real code as soon as TLC has finished with it.  -> (jobs, results) in a deterministic order."""
@@ -889,6 +1089,7 @@ def run_pipeline(ctx, tasks, enum_jobs, chunk=45, concurrent=6, workers=8):
         submitted = []
         per_task = dict((ti, {"recs": 0, "states": 0}) for ti in range(len(tasks)))
         with cf.ThreadPoolExecutor(max_workers=concurrent) as tex:
+            extra_futs = [tex.submit(fn) for fn in (extra or [])]
             futs = dict((tex.submit(one, u), u) for u in units)
             for f in cf.as_completed(futs):
                 ti, cases, name = futs[f]
@@ -905,6 +1106,7 @@ def run_pipeline(ctx, tasks, enum_jobs, chunk=45, concurrent=6, workers=8):
                 js.sort(key=lambda j: 0 if j[0]["run"].endswith(("par2", "par3")) else 1)
                 for j in js:
                     submitted.append((ti, name, j, pool.submit(replay_case, j)))
+            extra_results = [f.result() for f in extra_futs]
         t_tlc = time.time() - t0
         out = [(ti, name, j, fut.result()) for ti, name, j, fut in submitted]
     finally:
@@ -915,6 +1117,8 @@ def run_pipeline(ctx, tasks, enum_jobs, chunk=45, concurrent=6, workers=8):
                                          "window": t.get("window") or ("all children-first orders (first chunk), 2 (others)" if t.get("later_window") else "all children-first orders"),
                                          "distinct_states": per_task[ti]["states"], "terminal_records": per_task[ti]["recs"]})
     ctx.note("phase_wall_s", {"tlc": round(t_tlc, 1), "replay_tail": round(time.time() - t0 - t_tlc, 1), "pool_processes": len(pids)})
+    if extra is not None:
+        return [o[2] for o in out], [o[3] for o in out], extra_results
     return [o[2] for o in out], [o[3] for o in out]
 
 
@@ -935,7 +1139,10 @@ def run(ctx):
     def enum_jobs(t, recs):
         step = 3 if quick else 6
         return [(enum_meta(rec, i, ctx.scratch), rec) for i, rec in enumerate(recs) if i % step == 0]
-    jobs, results = run_pipeline(ctx, tasks, enum_jobs)
+    # ---- the lossy format: real jpg cascades of noisy tiles first, TLC evaluates the stored children alongside the rest
+    lossy_runs, lossy_parents, lossy_in = lossy_prepare(ctx)
+    jobs, results, extra = run_pipeline(ctx, tasks, enum_jobs, extra=[lambda: lossy_tlc(ctx, lossy_in)])
+    lossy_compare(ctx, lossy_runs, lossy_parents, extra[0])
     ctx.exhaustive = False
     if not jobs:
         ctx.machinery("no cases")
